@@ -387,8 +387,19 @@ def run(c, prog):
             I.emit(("sink", "insert", ("tup", tuple(args)), core.loc(n)))
             return _sym.var(_sym.NONE)
         env = {p_["lid"]: (S if p_["name"] == "self" else (ID if p_ is idp[0] else ("in", p_["name"]))) for p_ in fn.params}
-        I, val, ex = _wire.run_region(prog, fn.body, env, [(re.compile(r"Map::<.*>::insert$|Map<.*>::insert$"), p_ins)], depth=5)
-        final_self = env[selfp[0]["lid"]]
+
+        class StateInterp(_wire.WireInterp):
+            """writes to the state are events, so that what a path did before an early `return` is visible"""
+            def assign(self, place, v, env_):
+                super().assign(place, v, env_)
+                if core.strip(place).get("k") == "Field" and not (isinstance(v, tuple) and v and v[0] == "st"):
+                    self.emit(("sink", "assign", ("tup", (v,)), core.loc(place)))
+        I = StateInterp(prog, prims=[(re.compile(r"Map::<.*>::insert$|Map<.*>::insert$"), p_ins)], depth=5, opaque=_wire.OPAQUE)
+        val = None
+        try:
+            val = I.eval(fn.body, env)
+        except _sym.Exit as e_:
+            val = e_.value
 
         def lookups(t, out):
             if isinstance(t, tuple) and t:
@@ -400,7 +411,7 @@ def run(c, prog):
                 for x in t:
                     lookups(x, out)
             return out
-        G = lookups(list(I.events) + [val, final_self], [])
+        G = lookups(list(I.events) + [val], [])
         if not G:
             raise _sym.Unsupported("map_id does not look `id` up in the table")
 
@@ -419,27 +430,25 @@ def run(c, prog):
                 return None
             evs, x = _sym.taken_path(I.events, oracle)
             sinks = [e for e in evs if e[0] == "sink"]
-            v = strip_ref(resolve(val, oracle)) if val is not None else None
-            st = resolve(final_self, oracle)
-            others = {k: leaf(st, k) for k in leaves if k != ctrs[0]}
-            if any(others[k] != ("in", k) for k in others):
-                why = f"a state field other than the counter changes ({[k for k in others if others[k] != ('in', k)]})"
-                break
+            ins = [e[2][1] for e in sinks if e[1] == "insert"]
+            writes = [resolve(e[2][1][0], oracle) for e in sinks if e[1] == "assign"]
+            # the write-back of a helper's `&mut self` stores a whole struct whose changed leaves were seen as writes inside
+            writes = [w for w in writes if not (isinstance(w, tuple) and w and w[0] == "st")]
+            rv = x[1] if (x is not None and x[0] == "return") else val
+            v = strip_ref(resolve(rv, oracle)) if rv is not None else None
             if hit:
-                if sinks or leaf(st, ctrs[0]) != C0:
+                if ins or writes:
                     why = "a referent that already has a number changes the table or the counter"
                     break
-                if not (isinstance(v, tuple) and any(g in (v,) or _contains(v, g) for g in G)):
+                if not (isinstance(v, tuple) and any(_contains(v, g) for g in G)):
                     why = f"for a referent that already has a number the function returns {_sym.term_str(v, 4)}, not the stored number"
                     break
             else:
-                ins = [e[2][1] for e in sinks if e[1] == "insert"]
                 if len(ins) != 1 or strip_ref(ins[0][0]) != M or strip_ref(ins[0][1]) != ID or strip_ref(ins[0][2]) != C0:
                     why = f"a new referent is not filed as table[id] = counter (inserts: {[_sym.term_str(('tup', a), 4) for a in ins]})"
                     break
-                nxt = leaf(st, ctrs[0])
-                if not (isinstance(nxt, tuple) and nxt[0] == "op" and nxt[1] == "+" and C0 in nxt[2:] and ("c", 1) in nxt[2:]):
-                    why = f"after a new referent the counter is {_sym.term_str(nxt, 4)}, not counter + 1"
+                if len(writes) != 1 or not (isinstance(writes[0], tuple) and writes[0][0] == "op" and writes[0][1] == "+" and C0 in writes[0][2:] and ("c", 1) in writes[0][2:]):
+                    why = f"after a new referent the state is written as {[_sym.term_str(w, 4) for w in writes]}, not counter := counter + 1"
                     break
                 if v != C0:
                     why = f"a new referent gets {_sym.term_str(v, 4)}, not the counter's value before the increment"
